@@ -16,6 +16,8 @@ import (
 
 	libaudit "github.com/elastic/go-libaudit/v2"
 	"github.com/elastic/go-libaudit/v2/vshim/sched"
+	"github.com/elastic/go-libaudit/v2/vshim/vos"
+	"github.com/elastic/go-libaudit/v2/vshim/vtime"
 
 	"verif/engine/envdfs"
 	"verif/engine/ev"
@@ -24,7 +26,7 @@ import (
 	"verif/engine/ksim"
 )
 
-var c17Names = []string{"SetRateLimit(NoWait)", "SetEnabled(NoWait)", "WaitForPendingACKs", "SetBacklogLimit(Wait)", "SetPID(NoWait)", "SetPID(Wait)", "GetRules", "Close", "GetStatus(pid=self)"}
+var c17Names = []string{"SetRateLimit(NoWait)", "SetEnabled(NoWait)", "WaitForPendingACKs", "SetBacklogLimit(Wait)", "SetPID(NoWait)", "SetPID(Wait)", "GetRules", "Close", "GetStatus(pid=self)", "time-passes", "euid:=1000", "euid:=0"}
 
 const (
 	aRateNoWait = iota
@@ -36,7 +38,23 @@ const (
 	aGetRules
 	aClose
 	aGetStatusSelf // the kernel's status names THIS process (pid, and every other field a value taken from the running process)
+	aTimePasses    // the (virtual) clock advances: just beyond every duration written in the tree's audit.go, and an hour
+	aEuidUser      // the process's effective uid becomes 1000 (it keeps CAP_AUDIT_CONTROL: the kernel still says yes)
+	aEuidRoot
 )
+
+var c17Ticks []time.Duration
+
+func c17TickList() []time.Duration {
+	if c17Ticks == nil {
+		hv := harvest.Files([]string{filepath.Join(ev.Repo(), "audit.go")}, harvest.Options{})
+		for _, d := range hv.Durations() {
+			c17Ticks = append(c17Ticks, time.Duration(d)+time.Millisecond)
+		}
+		c17Ticks = append(c17Ticks, 3*time.Second, time.Hour)
+	}
+	return c17Ticks
+}
 
 // listingRules: what the simulated kernel holds at the k-th listing.
 func listingRules(k int) [][]byte {
@@ -63,6 +81,8 @@ func execC17(hist []int, env *envdfs.Env, shape ksim.Shape) (viol []Viol, log st
 	sim.Verdicts = []int{0, 1}
 	sim.Shape = shape
 	sim.Guard = true
+	vos.Uninstall()
+	defer vos.Uninstall()
 	sim.CloseAnswers = []syscall.Errno{0, syscall.EINTR, syscall.EBADF, syscall.EIO}
 	sim.Rules = simRules(2)
 	c := &libaudit.AuditClient{Netlink: sim}
@@ -183,6 +203,16 @@ func execC17(hist []int, env *envdfs.Env, shape ksim.Shape) (viol []Viol, log st
 		case aPIDWait:
 			err = c.SetPID(libaudit.WaitForReply)
 			usedPID = true
+		case aTimePasses:
+			if clk := vtime.Installed(); clk != nil {
+				for _, d := range c17TickList() {
+					clk.Advance(d)
+				}
+			}
+		case aEuidUser:
+			vos.Install(&vos.Env{Euid: vos.Int(1000), Uid: vos.Int(1000)})
+		case aEuidRoot:
+			vos.Install(&vos.Env{Euid: vos.Int(0), Uid: vos.Int(0)})
 		case aGetStatusSelf:
 			// values that exist only at run time: this process's pid / parent / uid, the client's own numbers
 			sim.Status = [11]uint32{0x7f, 1, 1, uint32(os.Getpid()), uint32(os.Getppid()), uint32(os.Getuid()), uint32(os.Getpid()), 0, uint32(os.Getpid()), 60000, uint32(os.Getpid())}
@@ -583,6 +613,10 @@ func checkC17(tier string, raceBin string) int {
 	for _, c := range chunk(hs, 64) {
 		jobs = append(jobs, Job{Kind: "c17", Histories: c, Bound: bound})
 	}
+	// time passes between calls, the effective uid changes between calls (nothing the kernel answers depends on it)
+	for _, c := range chunk(allHistories([]int{aTimePasses, aEuidUser, aRateNoWait, aWaitAcks, aPIDWait, aBacklogWait, aClose}, 4), 16) {
+		jobs = append(jobs, Job{Kind: "c17", Histories: c, Bound: 1})
+	}
 	// histories with a GetStatus whose reply names this very process, and transports whose sequence numbers wrap
 	// past 2^32 (and cross 2^31, 2^16) while requests are pending
 	for _, c := range chunk(allHistories([]int{aGetStatusSelf, aRateNoWait, aWaitAcks, aPIDWait, aClose}, 3), 8) {
@@ -619,6 +653,7 @@ func checkC17(tier string, raceBin string) int {
 		jobs = append(jobs, Job{Kind: "c17", Histories: sweepH, Bound: 2, Shapes: shapes[i:k]})
 	}
 	collect(run, "C17", jobs, nil)
+	stackPass(run, "C17")
 	c17Scale(run)
 	c17TwoClients(run)
 	// concurrent Close: all interleavings
